@@ -278,6 +278,12 @@ def _tuple(I, a, k):
 
 @model(builtins.list)
 def _list(I, a, k):
+    from .interp import SIter
+    if a and isinstance(a[0], SIter):
+        n = A.conc(a[0].length)
+        if n is None:
+            raise Unsupported("list() of an iterable of symbolic length")
+        return [a[0].item(z3.IntVal(j)) for j in range(n)]
     if a and isinstance(a[0], SArr):
         return I.to_list(a[0])
     if a and isinstance(a[0], (list, tuple, dict, set)) or not a:
@@ -695,6 +701,8 @@ def _where(I, a, k):
         m = A.as_sarr(a[0])
         if m.ndim == 1:
             return (A.where1d(m),)
+        if m.ndim == 2:
+            return A.where2d(m)
         raise Unsupported("np.where on n-d condition")
     c, x, y = (A.as_sarr(v) for v in a)
     dt = np.result_type(x.dtype, y.dtype)
@@ -801,12 +809,24 @@ def _npsum(I, a, k):
 
 
 # ----------------------------------------------------------------------------- attributes of symbolic values
-class _ArrMethod:
-    def __init__(self, arr, name):
-        self.arr, self.name = arr, name
+class SymCallable:
+    """callable provided by a model (method of a symbolic value); accepts symbolic arguments"""
+
+    def __init__(self, f, name=""):
+        self.f, self.name = f, name
+
+    def __call__(self, *a, **k):
+        return self.f(*a, **k)
 
 
 def sym_attr(I, obj, name):
+    r = _sym_attr(I, obj, name)
+    if callable(r) and not isinstance(r, (SymCallable, SArr, SV, np.dtype)):
+        return SymCallable(r, name)
+    return r
+
+
+def _sym_attr(I, obj, name):
     from .interp import PyRaise
     if isinstance(obj, SV):
         if name == "is_integer" and obj.is_real:
@@ -890,3 +910,36 @@ def _hann(I, a, k):
     arr = SArr(np.float64, (A.dim(n),), lambda idx: f(idx[0]))
     arr.facts_on_read = facts
     return arr
+
+
+@model(np.unpackbits)
+def _unpackbits(I, a, k):
+    """A-NP-SPEC: uint8 -> bits, most significant first, flattened (axis=None)"""
+    if not _anysym(a, k):
+        return NotImplemented
+    x = A.as_sarr(a[0])
+    if x.dtype != np.dtype("uint8"):
+        raise I_raise(TypeError("Expected an input array of unsigned byte data type"))
+    if k.get("axis") is not None or k.get("bitorder", "big") != "big" or k.get("count") is not None:
+        raise Unsupported("unpackbits with axis/bitorder/count")
+    flat = A.reshape(x, (-1,)) if x.ndim != 1 else x
+    s = flat.snapshot()
+    n = A.T(flat.shape[0])
+
+    def elem(idx):
+        i = idx[0]
+        byte = s((A.idiv(i, 8),))
+        b = z3.simplify(7 - A.imod(i, 8))
+        # (byte div 2^b) mod 2 with b in 0..7: case split keeps the arithmetic linear
+        if z3.is_int_value(b):
+            return z3.simplify((byte / (2 ** b.as_long())) % 2)
+        t = (byte / 128) % 2
+        for bb in range(6, -1, -1):
+            t = z3.If(b == bb, (byte / (2 ** bb)) % 2, t)
+        return z3.simplify(t)
+    return SArr(np.uint8, (A.dim(n * 8),), elem)
+
+
+def I_raise(e):
+    from .interp import PyRaise
+    return PyRaise(e)
